@@ -8,6 +8,7 @@ import (
 	"errors"
 	"fmt"
 	"sync"
+	"sync/atomic"
 
 	nats "github.com/nats-io/nats.go"
 
@@ -181,9 +182,17 @@ func (c *Conn) deliver(targets []*Sub, subject, reply string, payload []byte) in
 	return n
 }
 
+// ClosedChanSends counts deliveries that hit a closed channel (a real client
+// would have panicked with "send on closed channel").
+var closedChanSends int64
+
+// ClosedChanSends returns the process-wide count of sends on closed channels.
+func ClosedChanSends() int64 { return atomic.LoadInt64(&closedChanSends) }
+
 func trySend(ch chan *nats.Msg, m *nats.Msg) (ok bool) {
 	defer func() {
 		if recover() != nil {
+			atomic.AddInt64(&closedChanSends, 1)
 			ok = false
 		}
 	}()
